@@ -193,6 +193,8 @@ static int dd_myrank = 0, dd_nranks = 1;
 /* hooks for the harnesses */
 static void (*dd_hook_before_insert)(parsec_taskpool_t *tp, int next_task /* nt = flush */) = NULL;
 static void (*dd_hook_body_inside)(int tid) = NULL;     /* called between enter and exit (hold point) */
+static void (*dd_hook_after_insert)(void) = NULL;       /* after every insertion / flush call made by the main thread */
+static void (*dd_hook_before_wait)(void) = NULL;        /* before every parsec_taskpool_wait */
 static parsec_task_class_t *dd_classes[256]; static int dd_nclasses_made;
 static parsec_task_class_t *dd_class_tab[27 * 12];
 
@@ -419,11 +421,13 @@ static void dd_run(dd_env_t *e, const dd_prog_t *p, const dd_cfg_t *cfg, dd_res_
     for (int t = 0; t < upto; t++) {
         if (dd_hook_before_insert) dd_hook_before_insert(tp, t);
         dd_insert_one(tp, t);
+        if (dd_hook_after_insert) dd_hook_after_insert();
     }
     if (upto < p->nt || cfg->gen_at == p->nt) {
         int from = upto;
         if (dd_hook_before_insert) dd_hook_before_insert(tp, upto);
         parsec_dtd_insert_task(tp, dd_gen_body, 0, PARSEC_DEV_CPU, "G", sizeof(int), &from, PARSEC_VALUE, PARSEC_DTD_ARG_END);
+        if (dd_hook_before_wait) dd_hook_before_wait();
         parsec_taskpool_wait(tp);     /* the generator must be done inserting before the flush */
     }
     if (dd_hook_before_insert) dd_hook_before_insert(tp, p->nt);
@@ -433,12 +437,15 @@ static void dd_run(dd_env_t *e, const dd_prog_t *p, const dd_cfg_t *cfg, dd_res_
          * UNflushed tile retained (a pending runtime action), so a wait before everything is flushed never returns there; the
          * repository's own programs always flush everything before they wait - do the same (one wait after flush_all). */
         if (dd_nranks == 1) {
+            if (dd_hook_before_wait) dd_hook_before_wait();
             parsec_taskpool_wait(tp);
             for (int i = 0; i < e->ntiles; i++) if ((int)e->dc->owner[i] == dd_myrank) res->after_partial[i] = *(int64_t *)vdc_elem(e->dc, i);
             res->partial_done = 1;
         }
     }
+    if (cfg->flush_mask >= 0 && dd_hook_before_insert) dd_hook_before_insert(tp, p->nt);
     parsec_dtd_data_flush_all(tp, dd_cur_dc);
+    if (dd_hook_before_wait) dd_hook_before_wait();
     parsec_taskpool_wait(tp);
     dd_unpark_all();
     for (int i = 0; i < dd_nclasses_made; i++) parsec_dtd_task_class_release(tp, dd_classes[i]);
